@@ -201,9 +201,22 @@ def gen_strategy():
     return st.fixed_dictionaries({'formats': arg, 'ext': st.booleans(), 'texts': st.lists(st.one_of(text, text, text, junk), min_size=4, max_size=12)})
 
 
+def format_string_cases():
+    """Every three-part string over the six part names with any separators: valid iff it is one of the 48."""
+    parts = ('d', 'dd', 'm', 'mm', 'yy', 'yyyy')
+    for a in parts:
+        for b in parts:
+            for c in parts:
+                for s1 in SEPS:
+                    for s2 in SEPS:
+                        f = a + s1 + b + s2 + c
+                        yield {'formats': f, 'ext': False, 'texts': ['1-1-01', '01/01/2001', '2001-01-01', '2001/31/12', '01-31-2001']}
+                        yield {'formats': [FORMATS[0], f], 'ext': True, 'texts': ['31-12-2024', '2024/31/12']}
+
+
 def shards(tier):
     quick = tier == 'quick'
-    out = []
+    out = [{'mode': 'format_strings'}]
     for i in range(16 if quick else 48):
         fmts = [f for k, f in enumerate(FORMATS) if k % (16 if quick else 48) == i]
         out.append({'mode': 'enumerate', 'formats': fmts, 'full': not quick})
@@ -216,6 +229,9 @@ SHARD_TIMEOUT = {'quick': 240, 'thorough': 3000}
 
 
 def run_shard(spec, ctx):
+    if spec['mode'] == 'format_strings':
+        run_enumeration(ctx, format_string_cases(), check_case, 'all 864 three-part format strings over {d,dd,m,mm,yy,yyyy} x separators, alone and in a list')
+        return
     if spec['mode'] == 'enumerate':
         total = 0
         for fmt in spec['formats']:
